@@ -1,3 +1,56 @@
-(* C12 placeholder until the proofs are in *)
-From EC Require Import Base.Prelude Sii.Range Sii.Parse.
-Theorem c12_placeholder : True. Proof. exact I. Qed.
+(* C12 -- EEPROM reads return exactly the stored bytes and parse to what they encode. *)
+From EC Require Import Base.Prelude Base.Bytes Wire.Layout Gen.SrcLayouts Sii.Range Sii.RangeProofs Sii.Parse Sii.ParseProofs.
+Local Open Scope N_scope.
+
+(* Reading n bytes at word w the way eeprom_read_raw / eeprom_read do (start_at(w, n) then read /
+   read_exact), for ANY EEPROM contents, any provider serving at least one word per access (4 and 8
+   bytes included), any start word, any length - odd or even - inside the 16-bit word address
+   space: exactly the n stored bytes 2w .. 2w+n, nothing else. *)
+Theorem c12_read_exact : forall p w n, prov_ok p -> 2 * w + N.of_nat n <= 131072 ->
+  exact p (start_at w (N.of_nat n)) n
+  = Ok (bytes_from p (2 * w) n, {| r_pos := 2 * w + N.of_nat n; r_end := 2 * w + (N.of_nat n + 1) / 2 * 2 |}).
+Proof. exact exact_fresh. Qed.
+Print Assumptions c12_read_exact.
+
+(* Read::read on any range inside the address space: min(buffer, remaining) bytes, exactly those
+   stored at the current position, and the position advances by that much. *)
+Theorem c12_read : forall p r n, (2 <= p_cs p)%nat -> r_pos r <= r_end r -> r_end r <= 131072 ->
+  let k := Nat.min n (N.to_nat (r_end r - r_pos r)) in
+  range_read p r n = Ok (bytes_from p (r_pos r) k, {| r_pos := r_pos r + N.of_nat k; r_end := r_end r |}).
+Proof. exact range_read_spec. Qed.
+Print Assumptions c12_read.
+
+(* ... and on ANY range whatsoever a read never delivers more than asked for, never anything from
+   beyond the end of the range, and only stored bytes. *)
+Theorem c12_read_never_beyond : forall p r n, (2 <= p_cs p)%nat ->
+  (exists k, (k <= n)%nat /\ N.of_nat k <= r_end r - r_pos r /\
+     range_read p r n = Ok (bytes_from p (r_pos r) k, {| r_pos := r_pos r + N.of_nat k; r_end := r_end r |})) \/
+  range_read p r n = Err SOverrun.
+Proof. exact range_read_safe. Qed.
+Print Assumptions c12_read_never_beyond.
+
+(* The category walk: for any chain of category headers (types the parser knows or not, in any
+   order) in front of the wanted category - fewer than 32 empty ones, inside the address space -
+   the walk returns exactly the wanted category's payload range. *)
+Theorem c12_category_found : forall p want pre wa e len fuel,
+  headers_at p wa (pre ++ [(want, len)]) ->
+  Forall (stepped_over want) pre ->
+  enum_val enum_CategoryType want = Ok want ->
+  e + empties_in (pre ++ [(want, len)]) < 32 ->
+  end_of wa pre + 2 < 65536 ->
+  (length pre < fuel)%nat ->
+  walk fuel p want wa e = Ok (Some (range_new (end_of wa pre + 2) len)).
+Proof. exact walk_finds. Qed.
+Print Assumptions c12_category_found.
+
+(* Item lists (sync managers, FMMU mappings): a category of k whole items is reported as exactly
+   those k items, each parsed from its own bytes, in order. *)
+Theorem c12_items : forall p size parse cap item, prov_ok p -> (0 < size)%nat ->
+  forall k r n acc vs fuel,
+  r_pos r <= r_end r -> r_end r <= 131072 ->
+  (N.to_nat (r_end r - r_pos r) / size = k)%nat ->
+  (n + k <= cap)%nat -> (k < fuel)%nat ->
+  Forall2 (fun i v => parse (bytes_from p (r_pos r + N.of_nat (size * i)) size) = Ok v) (seq 0 k) vs ->
+  collect fuel p r size parse cap item n acc = Ok ((n + k)%nat, acc ++ concat vs).
+Proof. exact collect_spec. Qed.
+Print Assumptions c12_items.
